@@ -110,8 +110,10 @@ def run(tier):
              ("nested switches and runs of labels, <=7 nodes", 7, ["expr", "compound2", "switch", "case", "default", "break"]),
              ("switch blocks with pragmas and bare blocks, <=7 nodes", 7, ["expr", "compound0", "compound3", "switch", "case", "item_pragma"])]
     if tier == "thorough":
-        plans = [("all productions, <=4 nodes", 4, ALL), ("switch-focused, <=6 nodes", 6, SWITCHY), ("reduced alphabet, <=5 nodes", 5, REDUCED),
-                 ("nested switches and runs of labels, <=7 nodes", 7, ["expr", "compound2", "compound3", "switch", "case", "default", "break"])]
+        # (one more statement node multiplies the population by ~40: the exhaustive bounds stay those of the quick tier
+        # - every exported body is held with its tree - and depth comes from the larger simulation below)
+        plans = plans + [("nested switches and runs of labels with three-item blocks, <=7 nodes", 7,
+                          ["expr", "compound2", "compound3", "switch", "case", "default", "break"])]
     allc = []
     for label, nodes, kinds in plans:
         cases = enumerate_bodies(ctx, label, nodes, kinds)
